@@ -405,3 +405,50 @@ pub fn c04_cases(thorough: bool) -> Vec<C04Case> {
     }
     v
 }
+
+/// Concrete companion for the byte-level clause: every single-bit flip (stride 1) of the encoding of
+/// an honest proof is rejected at decoding or at verification, or decodes to the identical object.
+pub fn bitflip_native<G: AffineRepr + 'static>(seed: u64, stride: usize) -> Vec<(String, bool)> {
+    let mut out = vec![];
+    use crate::r1cs::Op::*;
+    for shape in [Shape::new("two_gates", &[Commit, AllocMul, Mul, Con], &[]), Shape::new("two_phase_1_2", &[Commit, AllocMul, Con], &[&[Chal, AllocMul, Mul, Con]])] {
+        let pad = shape.padded();
+        let pc = PedersenGens::<G>::default();
+        let bp = BulletproofGens::<G>::new(pad, 1);
+        let shr = new_shared::<G>(&shape, &Default::default(), Box::new(PlainVals::<G::ScalarField>::new(Default::default(), seed)));
+        let (proof, _) = prove_shape(&shape, &shr, &pc, &bp, seed);
+        let proof = match proof {
+            Ok(p) => p,
+            Err(_) => {
+                out.push(("prove succeeds".into(), false));
+                continue;
+            }
+        };
+        let bytes = proof.to_bytes().unwrap();
+        let (mut at_decode, mut at_verify, mut identical, mut accepted) = (0usize, 0usize, 0usize, vec![]);
+        let mut bit = (seed as usize) % stride.max(1);
+        while bit < bytes.len() * 8 {
+            let mut b2 = bytes.clone();
+            b2[bit / 8] ^= 1 << (bit % 8);
+            match R1CSProof::<G>::from_bytes(&b2) {
+                Err(_) => at_decode += 1,
+                Ok(p2) => {
+                    if p2.to_bytes().map(|x| x == bytes).unwrap_or(false) {
+                        identical += 1;
+                    } else {
+                        rewind_for_verifier(&shr);
+                        let mut vt = new_verifier_transcript(&shape);
+                        if build_verifier(&shape, &shr, &mut vt).verify(&p2, &pc, &bp).is_ok() {
+                            accepted.push(bit);
+                        } else {
+                            at_verify += 1;
+                        }
+                    }
+                }
+            }
+            bit += stride.max(1);
+        }
+        out.push((format!("{}: {} bytes, bit stride {}: {} flips rejected at decoding, {} at verification, {} decode to the identical object, accepted-but-different at bits {:?}", shape.name, bytes.len(), stride, at_decode, at_verify, identical, &accepted[..accepted.len().min(5)]), accepted.is_empty()));
+    }
+    out
+}
